@@ -404,7 +404,7 @@ def analyse(facts, tier):
             okb = (c['op'] == '<' and bound == 128) or (c['op'] == '<=' and bound == 127)
             obls.append(Obl('C05.R5', fn.name, 'all-keys loop %s' % show(l['cond']), '%s:%s' % (fn.file, l.get('ln')), 'discharged' if okb else 'finding',
                             why='keys 0..127' if okb else 'the loop that releases every key of the channel stops before key 127: a sounding note 127 is not released'))
-    if n_all < 2:
+    if n_all < (1 if facts.view == 'noSEQ' else 2):
         raise build.AnalysisBroken('C05.R5: only %d all-keys release loops found (panic, setChannelEnabled)' % n_all)
     # note-on and note-off normalise the key number alike (a key that note-on maps to 127 must be found by note-off)
     def key_clamp(fn_):
